@@ -164,8 +164,14 @@ def negatives():
                 agent = _sim("N", "time-based", steps=[1])
                 if transport:
                     agent["transport"] = "mem"
-                agent["beh"]["async"] = {"1": [[call, "X.e0", "mi" if call == "set" else "po"]]}
+                attr = "mi" if call == "set" else "po"
+                other = "get" if call == "set" else "set"
+                oattr = "mi" if other == "set" else "po"
+                # the first illegal request and later ones (a remote agent can catch the refusal and go on)
+                agent["beh"]["async"] = {"1": [[call, "X.e0", attr]], "2": [[call, "X.e0", attr]],
+                                         "3": [[other, "X.e0", oattr], [call, "X.e0", attr]]}
                 agent["beh"]["reraise"] = False
+                scn["until"] = 5
                 scn["sims"].append(agent)
                 scn["tree"].append("N")
                 if why == "no_flag":
